@@ -436,6 +436,11 @@ def e2e_cases():
     cs.append(("newline", {"a.o": "a", "new\nline.o": "b", "c.o": "c"}, [], ["a.o", "new\nline.o", "c.o"]))
     cs.append(("paren-hash-tilde", {"a.o": "a", "~#(x) {y}.o": "b", "c.o": "c"}, [], ["a.o", "~#(x) {y}.o", "c.o"]))
     cs.append(("response-file", {"a.o": "a", "b b.o": "b", "c'c.o": "c"}, [("write", "my args.rsp", "'b b.o'\n\"c'c.o\"\n")], ["a.o", "@my args.rsp"]))
+    # arguments inside a response file that span lines, with blanks next to the embedded newlines and at the line ends
+    cs.append(("response-file-multiline", {"a.o": "a", "b.o": "b", "c.o": "c"},
+               [("write", "multi.rsp", "-shared a.o b.o\n  c.o --build-id=none \"-soname=lib x\n   y.so \n\tz \"\n")], ["@multi.rsp"]))
+    cs.append(("response-file-multiline-rpath", {"a.o": "a", "b.o": "b", "c.o": "c"},
+               [("write", "multi2.rsp", "'-rpath=/opt/a \n /opt/b'\n\t a.o\n")], ["-shared", "@multi2.rsp", "b.o", "c.o", "--build-id=none"]))
     cs.append(("implicit-linker-script", {"a.o": "a", "b b.o": "b", "c.o": "c"}, [("write", "in puts.ld", "INPUT(\"b b.o\" c.o)\n")], ["a.o", "in puts.ld"]))
     cs.append(("thin-archive", {"a.o": "a", "b b.o": "b", "c.o": "c"}, [("run", ["ar", "rcT", "thin lib.a", "b b.o", "c.o"])], ["a.o", "thin lib.a"]))
     cs.append(("version-script-shared", {"a.o": "a", "b.o": "b", "c.o": "c"}, [("write", "ver s'.map", "{ global: foo; local: *; };\n")],
